@@ -416,6 +416,14 @@ class SysSim(Engine):
         self._compare_system(st, world2, sys2, dict(tags, rebuild=True))
 
     def _compare_system(self, st, world, sys_, tags, lenient_params=()):
+        try:
+            return self._compare_system_inner(st, world, sys_, tags, lenient_params)
+        except (AttributeError, KeyError, TypeError, IndexError) as e:
+            # what the build handed back is not a system with processes, flows, stocks and parameters of the documented kinds
+            raise Violation("build-succeeds", f"the object returned by the build ({type(sys_).__name__}) cannot be inspected as a system: {exc_class(e)}",
+                            cls="build-succeeds:malformed", **tags)
+
+    def _compare_system_inner(self, st, world, sys_, tags, lenient_params=()):
         def bad(clause, msg, **kw):
             raise Violation(clause, msg, cls=clause, **dict(tags, **kw))
 
@@ -1057,6 +1065,13 @@ class SysSim(Engine):
         return fired, out, result, target
 
     def _judge_export(self, st, op, result, target, tags):
+        try:
+            return self._judge_export_inner(st, op, result, target, tags)
+        except (AttributeError, KeyError, TypeError, IndexError) as e:
+            raise Violation("export-complete", f"{op['op']}: the exported structure lacks an entry or has another form than documented ({exc_class(e)}: {str(e)[:60]})",
+                            cls="export-complete:malformed", **tags)
+
+    def _judge_export_inner(self, st, op, result, target, tags):
         sys_, world = st.sys, st.world
         kind = op["op"]
 
